@@ -112,6 +112,13 @@ CHECKS = {
         note="Nothing is claimed between grid points. Committee arrays realise variances up to rounding; anchors are compared with the realised value.",
         technique="exhaustive grid enumeration of the implementation's update path with range/anchor/monotonicity oracles",
     ),
+    "C13": dict(
+        category="exploration",
+        text="(i) The acceptance function of the force-bias rejection sampler (calculate_trial_probability of a real ForceBias object after calculate_gamma) is evaluated on 64 reduced displacements for T in {1,300,5000} x 4 deltas (incl. per-coordinate) x 15 force patterns over {0,+-1e-12,+-1e-3,+-1,+-50,+-1e6,+-1e300} with mixed signs: finite, within [0,1], equal (1e-7) to an independent expm1-based Bal-Neyts density wherever |gamma| >= 1e-6, displacement along the force favoured, mean acceptance >= 0.2. (ii) real run(1) steps under prescribed generator answers (incl. rounds rejecting some coordinates and the extreme answers) x masses x 4 forms of the mass-scaling power: |dx| <= delta (m_min/m)^p, positions advanced exactly by zeta*delta*scale, step counter +1. (iii) real PCG64 seeds 0..31 with huge/mixed/zero forces: sampling rounds capped at 1000.",
+        design_ref="4-C13",
+        note="The density clause is verified as an identity of the sampler's acceptance function (uniform proposals accepted with probability P give density ~ P), not by sampling. Grid points only.",
+        technique="exhaustive grid enumeration of the implementation's acceptance function and of step() under prescribed generator answers",
+    ),
 }
 
 NA_REASON = "check not built yet in this session (design in DESIGN.md); no claim is made"
